@@ -20,6 +20,14 @@ thorough tier):
 import z3
 
 _sort_cache = {}
+_dt_ids = {}
+
+
+def _uid(key):
+    # unique constructor/selector names per datatype (SMT-LIB exports must not reuse names across datatypes)
+    if key not in _dt_ids:
+        _dt_ids[key] = len(_dt_ids) + 1
+    return _dt_ids[key]
 
 
 class Ty:
@@ -134,23 +142,27 @@ class Opt(Ty):
     def sort(self):
         k = ("Opt", repr(self.inner))
         if k not in _sort_cache:
+            u = _uid(k)
             d = z3.Datatype("Opt_" + _sname(self.inner))
-            d.declare("none")
-            d.declare("some", ("val", self.inner.sort()))
+            d.declare("none%d" % u)
+            d.declare("some%d" % u, ("val%d" % u, self.inner.sort()))
             _sort_cache[k] = d.create()
         return _sort_cache[k]
 
+    def _u(self):
+        return _uid(("Opt", repr(self.inner)))
+
     def is_none(self, term):
-        return self.sort().is_none(term)
+        return getattr(self.sort(), "is_none%d" % self._u())(term)
 
     def get(self, term):
-        return self.sort().val(term)
+        return getattr(self.sort(), "val%d" % self._u())(term)
 
     def some(self, term):
-        return self.sort().some(term)
+        return getattr(self.sort(), "some%d" % self._u())(term)
 
     def none(self):
-        return self.sort().none
+        return getattr(self.sort(), "none%d" % self._u())
 
     def wellformed(self, term):
         return [z3.Implies(z3.Not(self.is_none(term)), w) for w in self.inner.wellformed(self.get(term))]
@@ -164,16 +176,17 @@ class Tuple(Ty):
     def sort(self):
         k = ("Tuple", self.name)
         if k not in _sort_cache:
+            u = _uid(k)
             d = z3.Datatype("Tup_" + _sname(self))
-            d.declare("mk", *[("f%d" % i, t.sort()) for i, t in enumerate(self.items)])
+            d.declare("tup%d" % u, *[("f%d_%d" % (i, u), t.sort()) for i, t in enumerate(self.items)])
             _sort_cache[k] = d.create()
         return _sort_cache[k]
 
     def field(self, term, i):
-        return getattr(self.sort(), "f%d" % i)(term)
+        return getattr(self.sort(), "f%d_%d" % (i, _uid(("Tuple", self.name))))(term)
 
     def mk(self, *terms):
-        return self.sort().mk(*terms)
+        return getattr(self.sort(), "tup%d" % _uid(("Tuple", self.name)))(*terms)
 
     def wellformed(self, term):
         out = []
@@ -192,19 +205,23 @@ class List(Ty):
     def sort(self):
         k = ("List", repr(self.elem))
         if k not in _sort_cache:
+            u = _uid(k)
             d = z3.Datatype("List_" + _sname(self.elem))
-            d.declare("mk", ("arr", z3.ArraySort(z3.IntSort(), self.elem.sort())), ("n", z3.IntSort()))
+            d.declare("list%d" % u, ("arr%d" % u, z3.ArraySort(z3.IntSort(), self.elem.sort())), ("len%d" % u, z3.IntSort()))
             _sort_cache[k] = d.create()
         return _sort_cache[k]
 
+    def _u(self):
+        return _uid(("List", repr(self.elem)))
+
     def arr(self, term):
-        return self.sort().arr(term)
+        return getattr(self.sort(), "arr%d" % self._u())(term)
 
     def n(self, term):
-        return self.sort().n(term)
+        return getattr(self.sort(), "len%d" % self._u())(term)
 
     def mk(self, arr, n):
-        return self.sort().mk(arr, n)
+        return getattr(self.sort(), "list%d" % self._u())(arr, n)
 
     def at(self, term, i):
         return z3.Select(self.arr(term), i)
@@ -241,23 +258,27 @@ class Dict(Ty):
     def sort(self):
         key = ("Dict", self.name)
         if key not in _sort_cache:
+            u = _uid(key)
             d = z3.Datatype("Dict_" + _sname(self))
             d.declare(
-                "mk",
-                ("dom", z3.ArraySort(self.k.sort(), z3.BoolSort())),
-                ("map", z3.ArraySort(self.k.sort(), self.v.sort())),
+                "dict%d" % u,
+                ("dom%d" % u, z3.ArraySort(self.k.sort(), z3.BoolSort())),
+                ("map%d" % u, z3.ArraySort(self.k.sort(), self.v.sort())),
             )
             _sort_cache[key] = d.create()
         return _sort_cache[key]
 
+    def _u(self):
+        return _uid(("Dict", self.name))
+
     def dom(self, term):
-        return self.sort().dom(term)
+        return getattr(self.sort(), "dom%d" % self._u())(term)
 
     def map(self, term):
-        return self.sort().map(term)
+        return getattr(self.sort(), "map%d" % self._u())(term)
 
     def mk(self, dom, mp):
-        return self.sort().mk(dom, mp)
+        return getattr(self.sort(), "dict%d" % self._u())(dom, mp)
 
     def empty(self):
         return self.mk(z3.K(self.k.sort(), z3.BoolVal(False)), z3.K(self.k.sort(), _default_term(self.v)))
@@ -275,15 +296,15 @@ class Rec(Ty):
         k = ("Rec", self.rname)
         if k not in _sort_cache:
             d = z3.Datatype("Rec_" + self.rname)
-            d.declare("mk", *[(f, t.sort()) for f, t in self.fields.items()])
+            d.declare("mk_" + self.rname, *[("%s_%s" % (self.rname, f), t.sort()) for f, t in self.fields.items()])
             _sort_cache[k] = d.create()
         return _sort_cache[k]
 
     def get(self, term, f):
-        return getattr(self.sort(), f)(term)
+        return getattr(self.sort(), "%s_%s" % (self.rname, f))(term)
 
     def mk(self, **kw):
-        return self.sort().mk(*[kw[f] for f in self.fields])
+        return getattr(self.sort(), "mk_" + self.rname)(*[kw[f] for f in self.fields])
 
     def wellformed(self, term):
         out = []
